@@ -92,6 +92,10 @@ fn child_hist(args: &Args, foreign: bool) {
         out.count(if foreign { "histories_with_foreign_default_segments" } else { "histories" }, 1);
         if o.tainted { out.count("histories_tainted_by_a_foreign_default_step", 1); }
         for (k, v) in &o.stats { out.count(k, *v); }
+        if o.f28 > 0 {
+            out.count("f28_on_exit_after_close_callbacks", o.f28);
+            out.finding("F28", "Layered::exit runs the registry's exit before the layers' on_exit: when an exit through the collector API releases the span's last reference, every layer gets on_close first and then an on_exit for a span that is already gone (ctx.span(id) == None; fmt's on_exit would panic on its expect)", json!({"history_index": i, "shard": args.shard, "trace": o.trace}));
+        }
         for s in &o.sigs { out.distinct_str(s); }
         if let Some((tag, e)) = o.errors.first() {
             let w = json!({"history_index": i, "shard": args.shard, "class": if foreign { "foreign" } else { "hist" }, "errors": o.errors.iter().map(|(t, e)| format!("{t:?}: {e}")).collect::<Vec<_>>(), "trace": o.trace, "tainted": o.tainted,
